@@ -118,11 +118,20 @@ TResult == /\ IsEvent("result")
            /\ resok' = /\ (Ev.res = "ok") => (Ev.chunks = ref /\ Ev.idsok /\ Ev.paramsok)
                        /\ (Ev.res # "ok") => (cancelled /\ Ev.res = "interrupted")
            /\ UNCHANGED pvars /\ UNCHANGED <<bad, scen, ref>>
+\* the single-stream Chunker read through a fragmenting reader: the emitted sequence is the rule's chain whatever the
+\* fragmentation, the chunks are the input's bytes, and slices handed out earlier stay intact
+TChunker == /\ IsEvent("chunker")
+            /\ LET p == [L |-> Ev.L, Mn |-> Ev.Mn, Mx |-> Ev.Mx, NW |-> 1] IN
+               bad' = bad \cup Flag(Ev.err = "nil", "Chunker.Next failed on a reader that does not fail")
+                          \cup Flag(Ev.chunks = PC!ChainP(p, SeqToSet(Ev.bnd), 0), "single-stream chunk sequence differs from the rolling-hash rule")
+                          \cup Flag(Ev.dataok, "chunk data differs from the input bytes")
+                          \cup Flag(Ev.retainedok, "a chunk returned earlier was overwritten by a later call")
+            /\ UNCHANGED pvars /\ UNCHANGED <<scen, ref, resok>>
 \* bookkeeping records of the driver
 TSkip == /\ (IsEvent("stragglers")) /\ UNCHANGED pvars /\ UNCHANGED <<bad, scen, ref, resok>>
 
 TNext == TReset \/ TTop \/ TSend \/ TPop \/ TCaughtUp \/ TNullRun \/ TNPop \/ TSynced \/ TSkipCheck \/ TStopping
-         \/ TStopped \/ TClosed \/ TAccept \/ TDrained \/ TCancel \/ TResult \/ TSkip
+         \/ TStopped \/ TClosed \/ TAccept \/ TDrained \/ TCancel \/ TResult \/ TSkip \/ TChunker
 TSpec == TInit /\ [][TNext]_tvars
 
 \* ---- the property on the recorded behaviour
